@@ -402,7 +402,7 @@ func (g *gen) step() {
 		}
 	case pick < 88 && len(live) > 0:
 		st := live[r.Intn(len(live))]
-		g.do(Op{From: "C", Kind: "priority", ID: st.id, Prio: &Prio{Dep: uint32(r.Intn(8)), Excl: r.Chance(1, 2), Weight: uint8(r.Intn(256))}, Valid: true})
+		g.do(Op{From: from, Kind: "priority", ID: st.id, Prio: &Prio{Dep: uint32(r.Intn(8)), Excl: r.Chance(1, 2), Weight: uint8(r.Intn(256))}, Valid: true})
 	case pick < 92:
 		p := make([]byte, 8)
 		for i := range p {
